@@ -73,7 +73,27 @@ def build_template(chk, xvc):
     return t
 
 
+def build_plain_template(chk, xvc):
+    """a git repository with the same user files, branches and tag, but not yet an xvc repository (for `xvc init`)"""
+    t = Sandbox(chk.scratch, 'c15-template-plain', xvc)
+    t.git('init', '-q', '-b', 'main')
+    for p in TRACKED_USER:
+        t.write(p, ('# user rules\n*.tmp\n' if p.endswith('.gitignore') else f'{p}\n{TEN}'))
+    t.git('add', '-A')
+    t.git('commit', '-q', '-m', 'user root')
+    t.git('tag', 'v0')
+    t.git('branch', 'other')
+    t.git('checkout', '-q', '-b', 'side')
+    t.write('side.txt', 'only on side\n')
+    t.git('add', 'side.txt')
+    t.git('commit', '-q', '-m', 'user commit on side')
+    t.git('checkout', '-q', 'main')
+    return t
+
+
 def instantiate(chk, tmpl, name):
+    if isinstance(tmpl, dict):
+        raise TypeError('pick a template first')
     sb = Sandbox(chk.scratch, name, tmpl.xvc)
     shutil.copytree(tmpl.root, sb.root, symlinks=True, dirs_exist_ok=True)
     return sb
@@ -208,8 +228,20 @@ SETTINGS = [
     ({'from_ref': 'other'}, 2),
     ({'from_ref': 'side'}, 1),
     ({'from_ref': 'nosuchref'}, 1),
-    ({'env': {'XVC_git.auto_commit': 'false'}}, 0),
+    # the same options through the environment and through .xvc/config.local.toml (git-ignored)
+    ({'cfg': ['git.auto_commit=false', 'git.auto_stage=true'], 'via': 'env'}, 1),
+    ({'cfg': ['git.use_git=false'], 'via': 'env'}, 1),
+    ({'cfg': ['git.auto_commit=false'], 'via': 'local'}, 1),
+    ({'cfg': ['git.auto_commit=false', 'git.auto_stage=true'], 'via': 'local'}, 1),
 ]
+
+
+def gen_init_case(rng, chk):
+    """`xvc init` in a git repository that carries user work"""
+    ops = [o for o in gen_state(rng, chk) if not (o[0] == 'edit' and o[1] == '.gitignore')]
+    chk.count('cmd:init')
+    chk.count('setting:default')
+    return {'ops': [list(o) for o in ops], 'cmd': ['init'], 'readonly': False, 'setting': {}}
 
 
 def gen_case(rng, chk):
@@ -233,8 +265,9 @@ def gen_case(rng, chk):
 def argv_of(case):
     s = case['setting']
     a = []
-    for c in s.get('cfg', []):
-        a += ['-c', c]
+    if s.get('via', 'cli') == 'cli':
+        for c in s.get('cfg', []):
+            a += ['-c', c]
     if s.get('skip_git'):
         a.append('--skip-git')
     if s.get('to_branch'):
@@ -416,7 +449,7 @@ def short(r):
     return r[len('refs/heads/'):] if r.startswith('refs/heads/') else 'tags/' + r[len('refs/tags/'):]
 
 
-def model_request(case, pre, post):
+def model_request(case, pre, post, chain=None):
     shas = sorted(pre['trees'])
     ids = {s: i for i, s in enumerate(shas)}
     L = ['reset']
@@ -445,11 +478,29 @@ def model_request(case, pre, post):
     ag = cfgd.get('git.auto_stage', 'false') == 'true'
     L.append(f"cfg {int(use_git)} {int(ac)} {int(ag)} {int(bool(st.get('skip_git')))} {st.get('to_branch') or '-'} {st.get('from_ref') or '-'} 0")
     hook = 0 if any(o[0] == 'hook_fail' for o in case['ops']) else 1
-    L.append(f'phase {hook}')
-    for p in sorted(set(pre['wt']) | set(post['wt'])):
-        if is_xvc_path(p) and pre['wt'].get(p) != post['wt'].get(p):
-            L.append(f"ch {p} {post['wt'].get(p) or '-'}")
-    L.append(f'phase {hook}')
+    if case['cmd'][0] == 'init':
+        # `xvc init` calls handle_git_automation three times and writes between the calls; the write sets of the
+        # phases are read off the trees of the commits it made (user-side predictions stay the model's own)
+        cur = {p: b for p, b in pre['wt'].items() if is_xvc_path(p)}
+        phases = []
+        for c in reversed(chain or []):
+            ch = {p: c['tree'].get(p) for p in c['changed'] if is_xvc_path(p) and cur.get(p) != c['tree'].get(p)}
+            cur.update(ch)
+            phases.append(ch)
+        rest = {p: post['wt'].get(p) for p in set(cur) | {q for q in post['wt'] if is_xvc_path(q)} if cur.get(p) != post['wt'].get(p)}
+        phases.append(rest)
+        while len(phases) < 3:
+            phases.append({})
+        for ch in phases:
+            L.append(f'phase {hook}')
+            for p, b in sorted(ch.items()):
+                L.append(f"ch {p} {b or '-'}")
+    else:
+        L.append(f'phase {hook}')
+        for p in sorted(set(pre['wt']) | set(post['wt'])):
+            if is_xvc_path(p) and pre['wt'].get(p) != post['wt'].get(p):
+                L.append(f"ch {p} {post['wt'].get(p) or '-'}")
+        L.append(f'phase {hook}')
     L.append('run')
     return L, ids
 
@@ -498,6 +549,8 @@ def tie_diff(model, real):
 # running one case
 
 def run_case(chk, tmpl, name, case):
+    if isinstance(tmpl, dict):
+        tmpl = tmpl['plain' if case['cmd'][0] == 'init' else 'xvc']
     sb = instantiate(chk, tmpl, name)
     try:
         for op in case['ops']:
@@ -505,8 +558,16 @@ def run_case(chk, tmpl, name, case):
             if op[0] == 'edit' and op[1] == '.gitignore' and op[2] is None:
                 op = ('edit', '.gitignore', (sb.read('.gitignore') or b'').decode() + '# a rule the user added\n*.swp\n')
             apply_op(sb, op)
+        st = case['setting']
+        env = None
+        if st.get('via') == 'env':
+            env = {'XVC_' + c.split('=')[0]: c.split('=')[1] for c in st.get('cfg', [])}
+        elif st.get('via') == 'local':
+            # [git] table of the local (git-ignored) configuration file
+            body = '\n[git]\n' + ''.join(f"{c.split('=')[0].split('.')[1]} = {c.split('=')[1]}\n" for c in st.get('cfg', []))
+            with open(sb.path('.xvc/config.local.toml'), 'a') as f:
+                f.write(body)
         pre = observe(sb)
-        env = case['setting'].get('env')
         rc, out, err = sb.x(*argv_of(case), env=env)
         post = observe(sb)
         s = case['setting']
@@ -534,7 +595,7 @@ def check_tie(chk, model_bin, results, stream):
     st = chk.tie['streams'].setdefault(stream, {'cases': 0, 'compared': 0, 'outside_fragment': 0, 'disagreements': 0})
     lines, idx = [], []
     for r in results:
-        L, ids = model_request(r['case'], r['pre'], r['post'])
+        L, ids = model_request(r['case'], r['pre'], r['post'], r['chain'])
         lines += L
         idx.append((len(lines) - 1, ids))
     rc, answers, err = run_lines(model_bin, [], lines)
@@ -642,15 +703,16 @@ def run(chk: Check):
         'a user\'s pending edit of a file NAMED .gitignore/.xvcignore may be swept into an xvc commit (first sentence of the property); such states do not count for "read-only commands create no commit"',
     ]
     chk.extra['git_version'] = os.popen('git --version').read().strip()
-    tmpl = build_template(chk, xvc)
+    tmpl = {'xvc': build_template(chk, xvc), 'plain': build_plain_template(chk, xvc)}
     ncases = 260 if quick else 2200
+    ninit = 25 if quick else 250
     chk.extra['rule'] = (f'corpus ({len(CORPUS)} fixed cases: F4 on its four exit paths, detached HEAD, pathspec) + {len(KNOWN_REPLAYS)} known-finding replays (oracle only) + '
-                         f'{ncases} generated cases = random user state (pre-existing stash entries 0-2, detached HEAD / other branch, staged new/modified/deleted files, unstaged edits and deletions, '
+                         f'{ncases} generated cases (+ {ninit} `xvc init` cases in a plain git repository, three handle_git_automation calls) = random user state (pre-existing stash entries 0-2, detached HEAD / other branch, staged new/modified/deleted files, unstaged edits and deletions, '
                          'untracked files, user files named *.gitignore/*.xvcignore, user edits of real ignore files, rejecting pre-commit hook) x one of '
-                         f'{len(RO_CMDS)} read-only or {len(MUT_CMDS)} state-changing xvc commands x one of {len(SETTINGS) - 1} settings (default, auto_stage, automation off, use_git=false, --skip-git, '
+                         f'{len(RO_CMDS)} read-only or {len(MUT_CMDS)} state-changing xvc commands x one of {len(SETTINGS)} settings (default, auto_stage, automation off, use_git=false given with -c, through XVC_ environment variables or in .xvc/config.local.toml, --skip-git, '
                          '--to-branch new/existing, --from-ref same-tree/other-tree/missing). Every case: real repository, oracle on before/after observations, model prediction diffed with the real post-state. '
                          'Non-trivial = the user state has at least one staged or unstaged change or stash entry; distinct by (ops, command, setting).')
-    cases = list(CORPUS) + [gen_case(chk.rng, chk) for _ in range(ncases)]
+    cases = list(CORPUS) + [gen_case(chk.rng, chk) for _ in range(ncases)] + [gen_init_case(chk.rng, chk) for _ in range(ninit)]
     results = run_cases(chk, tmpl, cases, 'case')
     have_model = os.path.exists(model)
     if not have_model:
@@ -704,13 +766,14 @@ def run(chk: Check):
         if r['oracle']:
             chk.oracle_failure(r['oracle'][0], r['case'], describe(r), signature=signature(r['case'], r['oracle']))
     chk.tie['streams']['known_replays'] = {'cases': len(kres), 'failing': sum(1 for r in kres if r['oracle'])}
-    tmpl.cleanup()
+    for t in tmpl.values():
+        t.cleanup()
     return chk.finish()
 
 
 def replay(chk: Check, data):
     xvc = chk.build_xvc()
-    tmpl = build_template(chk, xvc)
+    tmpl = {'xvc': build_template(chk, xvc), 'plain': build_plain_template(chk, xvc)}
     for i, f in enumerate(data.get('failures', [])):
         r = run_case(chk, tmpl, f'replay-{i}', f['case'])
         chk.evaluations += 1
@@ -718,5 +781,6 @@ def replay(chk: Check, data):
         print('oracle:', r['oracle'] or 'property holds on this input')
         if r['oracle']:
             chk.oracle_failure(r['oracle'][0], r['case'], describe(r), signature=signature(r['case'], r['oracle']))
-    tmpl.cleanup()
+    for t in tmpl.values():
+        t.cleanup()
     return chk.finish()
